@@ -129,7 +129,7 @@ def _completed_before(tr, it, pos: int) -> bool:
 def oracle(case, tr: C.Trace) -> tuple[list[Violation], dict]:
     out: list[Violation] = []
     info = {"conflicts_same": 0, "conflicts_overlap": 0, "instances": 0, "same_tick_starts": 0, "run_ends": 0, "restarts": 0,
-            "alive_at_run_end": 0, "conflicts_running": 0, "attributed_to_leak": 0, "finalize_without_init": 0, "older_finalized_after_newer_init": 0, "runs": 0, "tick_raised": 0}
+            "alive_at_run_end": 0, "conflicts_running": 0, "attributed_to_leak": 0, "same_tick_first_unfinalized": 0, "finalize_without_init": 0, "older_finalized_after_newer_init": 0, "runs": 0, "tick_raised": 0}
 
     def viol(sig, msg):
         if not any(v.sig == sig for v in out):
@@ -144,12 +144,16 @@ def oracle(case, tr: C.Trace) -> tuple[list[Violation], dict]:
     # does in the next run (it stays registered; a later request of its name takes it over; an overlapping command does not
     # cancel it because no request owns it) follows from that one defect and is attributed to it, not judged again
     leaked: dict = {}
-    for r in C.runs_of(tr):
+    _runs = C.runs_of(tr)
+    for ri, r in enumerate(_runs):
         if r["stop_tick"] is None:
             continue
+        r["next_start_pos"] = _runs[ri + 1]["start_pos"] if ri + 1 < len(_runs) else len(tr.events)
         end_pos = tick_end[r["stop_tick"]]
         for it in insts.values():
-            if r["start_pos"] < it.first_pos < r["stop_pos"] and (it.init or it.exec) and not _ended(it, end_pos):
+            # also an instance whose first callback comes after on_stop, before any new run (a pending request that the command
+            # loop of the stop tick still starts), belongs to the ended run
+            if r["start_pos"] < it.first_pos < r["next_start_pos"] and (it.init or it.exec) and not _ended(it, max(end_pos, tick_end.get(min(it.init + it.exec)[1], end_pos))):
                 leaked[it.id] = r["stop_pos"]
 
     # accepted cancel requests per instance id (tick before which the request was made)
@@ -172,13 +176,19 @@ def oracle(case, tr: C.Trace) -> tuple[list[Violation], dict]:
                     state = "initialised"
                 elif state == "initialised":
                     viol("init:twice", "%s: second init callback in tick %d without a finalize in between" % (tag, tick))
-                elif any(ct <= tick for ct in cancelled_by_request.get(it.id, [])):
+                elif any(ct <= last_fin for ct in cancelled_by_request.get(it.id, [])):
+                    # the accepted cancel request came before (or caused) the finalize of the previous life
                     # was the finalize done by the cancel request itself (between two ticks: the harness labelled the callback
                     # with the tick before) or only later inside a tick?  Immediate finalize + restart = a stale request of the
                     # same name re-created the instance (by-name request lookup, the reinit-after-finalize family)
                     fin_pos = max(q for q, _ in it.fin if q < pos)
                     deferred = tr.events[fin_pos][0] == last_fin
-                    viol("cancelled-instance-restarted" if deferred else "cancelled-instance-restarted:stale-request-of-same-name",
+                    # deferred finalize on a line that had been invoked before (Alarm body): the cancellation ran into the failing
+                    # mark_cancelled of an already cancelled node (finalize skipped, done by the safety net one tick later)
+                    reinvoked = any(o2 is not it and o2.name == it.name and o2.args == it.args and o2.first_pos < it.first_pos
+                                    for o2 in insts.values())
+                    viol(("cancelled-instance-restarted:reinvoked-line" if reinvoked else "cancelled-instance-restarted") if deferred
+                         else "cancelled-instance-restarted:stale-request-of-same-name",
                          "%s: a cancel request for this instance was accepted before tick %d; it "
                          "was finalized in tick %d, then initialised again in tick %d and executed from iteration 0 (%d exec "
                          "callbacks after the accepted cancel)"
@@ -236,8 +246,12 @@ def oracle(case, tr: C.Trace) -> tuple[list[Violation], dict]:
                 pa = [q for q, _ in a.exec if lo <= q < hi][0]
                 pb = [q for q, _ in b.exec if lo <= q < hi][0]
                 together = a.alive_at(pb) or b.alive_at(pa)
-                viol("exclusive:same-tick-exec:%s:%s" % ("same-name" if a.name == b.name else "overlap-group",
-                                                         "alive-together" if together else "sequential"),
+                detail = "alive-together" if together else "sequential"
+                if together and a.first_pos >= lo and b.first_pos >= lo:
+                    # both conflicting requests arrived in this tick (the 'sequential' family) and the cancellation of the one
+                    # that started first was not completed: it is cancelled but stays un-finalized next to the other one
+                    detail = "both-started-in-tick:first-left-unfinalized"
+                viol("exclusive:same-tick-exec:%s:%s" % ("same-name" if a.name == b.name else "overlap-group", detail),
                      "tick %d: %s (..%s) and %s (..%s) both got exec callbacks in this tick (callback order: %s)"
                      % (t.no, a.name, a.id[-4:], b.name, b.id[-4:],
                         [(e[2], e[3][-4:], e[4]) for e in t.ev if e[1] == "cmd" and e[3] in (a.id, b.id)]))
@@ -270,7 +284,15 @@ def oracle(case, tr: C.Trace) -> tuple[list[Violation], dict]:
                      "%s (..%s) started in tick %d while %s (..%s) was executing; the older one still got exec in tick %d"
                      % (n.name, n.id[-4:], tk, o.name, o.id[-4:], late[0][1]))
             fin_here = [fp for fp, ft in o.fin if ft == tk]
-            if not fin_here:
+            if not fin_here and started_this_tick:
+                # reported by the exclusivity rule as ...:both-started-in-tick:first-left-unfinalized (both executed in this tick)
+                info["same_tick_first_unfinalized"] += 1
+                if not o.exec or not n.exec:
+                    viol("exclusive:same-tick-exec:%s:both-started-in-tick:first-left-unfinalized"
+                         % ("same-name" if o.name == n.name else "overlap-group"),
+                         "%s (..%s) and %s (..%s) both started in tick %d; the one started first was not finalized in that tick"
+                         % (o.name, o.id[-4:], n.name, n.id[-4:], tk))
+            elif not fin_here:
                 viol("conflict:older-not-finalized-in-tick:%s" % ("same-name" if o.name == n.name else "overlap-group"),
                      "%s (..%s) started in tick %d while %s (..%s) was executing; the older one was %s"
                      % (n.name, n.id[-4:], tk, o.name, o.id[-4:],
@@ -279,7 +301,7 @@ def oracle(case, tr: C.Trace) -> tuple[list[Violation], dict]:
                 info["older_finalized_after_newer_init"] += 1
 
     # -- D. run end + E. registry consistency --------------------------------------------------------------
-    runs = C.runs_of(tr)
+    runs = _runs
     info["runs"] = len(runs)
     for r in runs:
         s = r["stop_tick"]
@@ -298,15 +320,16 @@ def oracle(case, tr: C.Trace) -> tuple[list[Violation], dict]:
             info["alive_at_run_end"] += 1
         end_pos = tick_end[s]
         for it in insts.values():
-            if not (r["start_pos"] < it.first_pos < stop_pos):
+            if not (r["start_pos"] < it.first_pos < r["next_start_pos"]):
                 continue
-            if (it.init or it.exec) and not _ended(it, end_pos):
+            if (it.init or it.exec) and not _ended(it, max(end_pos, tick_end.get(min(it.init + it.exec)[1], end_pos))) and it.id in leaked:
                 began = [q for q, _ in it.init] or [q for q, _ in it.exec]
                 if max(began) < begin_pos:
                     cause = "not-cancelled"
                 elif any(fp < max(began) for fp, _ in it.fin):
                     cause = "restarted-after-cancel"        # the id had a life before (by-name cancellation + stale request)
-                elif P is not None and any(rid == it.id for _n, rid in P.reqs):
+                elif any(rid == it.id for tk0 in [tr.by_no(min(it.init + it.exec)[1] - 1)] if tk0 is not None
+                         for _n, rid in tk0.reqs):
                     cause = "pending-request-started-after-cancel"   # request listed before the Stop's tick, not yet started
                 else:
                     cause = "started-after-cancel:%s" % delivery   # first started after the Stop/Restart cancelled everything
